@@ -908,7 +908,21 @@ class Evaluator:
             env[t.id] = v
         elif isinstance(t, (ast.Tuple, ast.List)):
             items = _iter_items(v)
-            if items is None or len(items) != len(t.elts):
+            stars = [i for i, e in enumerate(t.elts) if isinstance(e, ast.Starred)]
+            if len(stars) == 1 and items is not None and len(items) >= len(t.elts) - 1:
+                # a, *rest, z = items
+                s0 = stars[0]
+                tail = len(t.elts) - s0 - 1
+                for e, item in zip(t.elts[:s0], items[:s0]):
+                    self.assign(e, item, env, fr)
+                self.assign(t.elts[s0].value, Tup(tuple(items[s0:len(items) - tail]), 'list'), env, fr)
+                for e, item in zip(t.elts[s0 + 1:], items[len(items) - tail:]):
+                    self.assign(e, item, env, fr)
+            elif stars:
+                for e in t.elts:
+                    self.assign(e.value if isinstance(e, ast.Starred) else e,
+                                Unknown('starred unpacking of a symbolic sequence'), env, fr)
+            elif items is None or len(items) != len(t.elts):
                 for i, e in enumerate(t.elts):
                     self.assign(e, _index(v, i), env, fr)
             else:
@@ -1202,6 +1216,17 @@ class Evaluator:
                         return Unknown('dict comprehension with symbolic key')
                     out[k.v] = self.expr(n.value, e2, fr)
                 return DictV([out])
+        if isinstance(n, ast.SetComp):
+            as_list = ast.ListComp(elt=n.elt, generators=n.generators)
+            ast.copy_location(as_list, n)
+            r = self.comprehension(as_list, env, fr)
+            if isinstance(r, Tup) and all(isinstance(i, Const) for i in r.items):
+                uniq = []
+                for i in r.items:
+                    if not any(u_.v == i.v for u_ in uniq):
+                        uniq.append(i)
+                return Tup(tuple(uniq), 'set')
+            return Unknown('set comprehension over symbolic values')
         if isinstance(n, (ast.ListComp, ast.GeneratorExp)):
             # a generator over finite iterables is consumed once by its user (unpacking, tuple(), join, ...):
             # its element sequence is the list comprehension's
